@@ -174,11 +174,20 @@ impl Helix {
         let r = (u - self.x0).hypot(v - self.y0);
         let delta = (v - self.y0).atan2(u - self.x0);
 
-        let temp = self.phi0 + Angle::from(2.0 * PI * (p.z - self.z0) / self.h) - delta;
+        // A helix with a negative radius is the same curve as the one with the
+        // opposite radius and phi0 shifted by half a turn. The algorithm below
+        // needs the radius to be positive.
+        let (helix_r, phi0) = if self.r < Length::new::<meter>(0.0) {
+            (-self.r, self.phi0 + Angle::HALF_TURN)
+        } else {
+            (self.r, self.phi0)
+        };
+
+        let temp = phi0 + Angle::from(2.0 * PI * (p.z - self.z0) / self.h) - delta;
         let n = (temp / Angle::FULL_TURN).floor::<ratio>();
 
         let M = Angle::HALF_TURN + Angle::from(2.0 * PI * n) - temp;
-        let e = 4.0 * PI.powi(2) * r * self.r / self.h.powi(P2::new());
+        let e = 4.0 * PI.powi(2) * r * helix_r / self.h.powi(P2::new());
         // Need to solve for E in the equation:
         //    M = E - e * sin(E)
         // Newton method converges monotonically for any value of e.
@@ -202,7 +211,7 @@ impl Helix {
             }
         }
 
-        let t = Angle::HALF_TURN - E + Angle::from(2.0 * PI * n) - self.phi0 + delta;
+        let t = Angle::HALF_TURN - E + Angle::from(2.0 * PI * n) - phi0 + delta;
         // Our helix model is a single revolution i.e. t in [-pi, pi].
         // Clamping doesn't really give you the closest point when it is outside
         // the range (there is more likely other local minima), but it is good
